@@ -1,7 +1,7 @@
 (* Kahn ordering of the engine (topological_sort_ir_nodes): every node it outputs has its
    dependencies before it, and on a dependency graph that is acyclic apart from self-loops (witnessed by a
    rank function) it outputs every head, so the execution order of the engine respects dependencies. *)
-From IL Require Import Model.Value Model.Datalog Proofs.DatalogSpec Proofs.DatalogMisc Proofs.DatalogEngine.
+From IL Require Import Model.Value Model.Datalog Proofs.DatalogSpec Proofs.DatalogMisc Proofs.DatalogEngine Proofs.DatalogPerm.
 From Coq Require Import Lia List.
 Import ListNotations.
 Open Scope N_scope.
@@ -149,4 +149,82 @@ Proof.
     destruct (deps_in_hs p hs q g Hg) as [Hgh Hne].
     rewrite app_nil_r. rewrite <- in_rev. apply filter_In. split; [apply Hall, Hgh|].
     apply negb_true_iff, N.eqb_neq, Hne.
+Qed.
+
+(* ------------------------------------------------------------------ converse: a dependency-respecting engine order yields a rank *)
+(* position of the first occurrence *)
+Fixpoint pos (x : N) (l : list N) : nat :=
+  match l with [] => 0%nat | y :: r => if N.eqb x y then 0%nat else S (pos x r) end.
+
+Lemma pos_app_in x l r : In x l -> pos x (l ++ r) = pos x l /\ (pos x l < length l)%nat.
+Proof.
+  induction l as [|y l IH]; intros H; [destruct H|]. cbn [pos app length].
+  destruct (N.eqb x y) eqn:E; [split; [reflexivity|lia]|].
+  destruct H as [->|H]; [rewrite N.eqb_refl in E; discriminate|].
+  destruct (IH H) as [A B]. split; [rewrite A; reflexivity|lia].
+Qed.
+
+Lemma pos_app_notin x l : ~ In x l -> pos x (l ++ [x]) = length l.
+Proof.
+  induction l as [|y l IH]; intros H; cbn [pos app length]; [rewrite N.eqb_refl; reflexivity|].
+  destruct (N.eqb x y) eqn:E; [apply N.eqb_eq in E; subst; exfalso; apply H; left; reflexivity|].
+  rewrite IH; [reflexivity|]. intros X; apply H; right; exact X.
+Qed.
+
+Lemma order_okb_pos p hs : forall o done, order_okb p hs done o = true ->
+  forall h g, In h o -> In g (deps p hs h) -> In g done \/ (pos g o < pos h o)%nat.
+Proof.
+  induction o as [|x r IH]; intros done Ho h g Hh Hg; [destruct Hh|].
+  cbn [order_okb] in Ho. apply andb_true_iff in Ho. destruct Ho as [Ho Ho3].
+  apply andb_true_iff in Ho. destruct Ho as [_ Ho2].
+  cbn [pos]. destruct (N.eqb h x) eqn:Ehx.
+  - apply N.eqb_eq in Ehx. subst h. left. rewrite forallb_forall in Ho2. apply memN_In, Ho2, Hg.
+  - destruct Hh as [->|Hh]; [rewrite N.eqb_refl in Ehx; discriminate|].
+    destruct (N.eqb g x) eqn:Egx; [right; lia|].
+    destruct (IH (x :: done) Ho3 h g Hh Hg) as [[<-|Hd]|Hlt].
+    + rewrite N.eqb_refl in Egx. discriminate.
+    + left; exact Hd.
+    + right; lia.
+Qed.
+
+Theorem order_ok_rank (p : program) : order_ok p = true ->
+  exists rank : rel -> nat,
+    (forall h g, In h (heads p) -> In g (deps p (heads p) h) -> (rank g < rank h)%nat) /\
+    (forall h, In h (heads p) -> ~ In (last (heads p) 0) (deps p (heads p) h)).
+Proof.
+  intros Ho. exists (fun r => pos r (topo_order p)).
+  assert (H1 : forall h g, In h (heads p) -> In g (deps p (heads p) h) ->
+                           (pos g (topo_order p) < pos h (topo_order p))%nat).
+  { intros h g Hh Hg. unfold order_ok in Ho.
+    destruct (order_okb_pos p (heads p) (topo_order p) [] Ho h g (topo_order_complete p h Hh) Hg) as [[]|H]; exact H. }
+  split; [exact H1|].
+  intros h Hh Hq.
+  pose proof (H1 h _ Hh Hq) as Hlt.
+  destruct (deps_in_hs p (heads p) h _ Hq) as [_ Hne].
+  pose proof (topo_order_complete p h Hh) as Hin.
+  unfold topo_order in Hlt, Hin.
+  set (o' := kahn (length (heads p)) p (heads p) [] ++
+             filter (fun x => negb (memN x (kahn (length (heads p)) p (heads p) []))) (heads p)) in *.
+  destruct (rev (heads p)) as [|q rr] eqn:Er.
+  - assert (E : heads p = []) by (rewrite <- (rev_involutive (heads p)), Er; reflexivity).
+    rewrite E in Hh. destruct Hh.
+  - assert (Hql : last (heads p) 0 = q).
+    { rewrite <- (rev_involutive (heads p)), Er. cbn [rev]. apply last_last. }
+    rewrite Hql in *.
+    set (l := filter (fun x => negb (N.eqb x q)) o') in *.
+    assert (Hnq : ~ In q l).
+    { intros X. apply filter_In in X. destruct X as [_ X]. rewrite N.eqb_refl in X. discriminate. }
+    assert (Hhl : In h l).
+    { apply in_app_or in Hin. destruct Hin as [X|[X|[]]]; [exact X|]. subst h. exfalso. apply Hne. reflexivity. }
+    pose proof (pos_app_notin q l Hnq) as P. destruct (pos_app_in h l [q] Hhl) as [A B].
+    unfold rel in *. rewrite P, A in Hlt. lia.
+Qed.
+
+Theorem order_ok_iff (p : program) :
+  order_ok p = true <->
+  exists rank : rel -> nat,
+    (forall h g, In h (heads p) -> In g (deps p (heads p) h) -> (rank g < rank h)%nat) /\
+    (forall h, In h (heads p) -> ~ In (last (heads p) 0) (deps p (heads p) h)).
+Proof.
+  split; [apply order_ok_rank|]. intros [rank [H1 H2]]. exact (acyclic_order_ok p rank H1 H2).
 Qed.
